@@ -4,4 +4,7 @@ EXTENDS RainIter
 MCEntries == {<<1, 1, 1>>, <<1, 3, 0>>, <<1, 5, 1>>, <<2, 2, 1>>, <<2, 4, 0>>}
 \* three user keys, runs of tombstones and several versions
 MCEntries3 == {<<1, 1, 1>>, <<1, 4, 0>>, <<2, 2, 1>>, <<2, 5, 1>>, <<3, 3, 0>>, <<3, 6, 1>>}
+\* simulation universe: four user keys, up to four versions each, tombstones first / last / between
+MCEntriesSim == {<<1, 1, 1>>, <<1, 5, 0>>, <<1, 9, 1>>, <<2, 2, 0>>, <<2, 6, 1>>, <<2, 10, 1>>,
+                 <<3, 3, 1>>, <<3, 7, 1>>, <<3, 11, 0>>, <<4, 4, 1>>, <<4, 8, 0>>, <<4, 12, 0>>}
 =============================================================================
